@@ -7,6 +7,7 @@ from harness import build as B
 from harness import payload as P
 from harness import refmodel as R
 from harness import spec as S
+from harness import wellcond as W
 from harness.core import is_err
 from harness.treecheck import leaf_preds
 
@@ -46,7 +47,7 @@ def dec(e):
 def gen(tier, rng, shard, nshards):
     for i in range(SIZES[tier]):
         dtm = S.pick(rng, ["f8", "f8", "c16", "f4", "mixed"])
-        o = S.Opts(dtmode=dtm, clean=True, max_dim=6, identity_dt="f4")
+        o = S.Opts(dtmode=dtm, clean=True, max_dim=6, identity_dt="f4", routines=0.08)
         shape_kind = S.pick(rng, ["square", "tall", "wide", "any"])
         m, n = int(rng.integers(1, 7)), int(rng.integers(1, 7))
         if shape_kind == "square":
@@ -55,7 +56,7 @@ def gen(tier, rng, shard, nshards):
             m, n = n, m
         elif shape_kind == "wide" and m > n:
             m, n = n, m
-        node = S.gen_tree(rng, int(S.pick(rng, [0, 0, 1, 1, 2])), o, (m, n))
+        node = W.direct_only(S.gen_tree(rng, int(S.pick(rng, [0, 0, 1, 1, 2])), o, (m, n)))
         declared = m == n and rng.random() < 0.15
         if declared:
             # a (truthfully) declared self-adjoint / positive-definite operator: sub-operators must not inherit the declaration
